@@ -26,13 +26,13 @@ ASSUMPTIONS = [
 ]
 TIMEOUT = {"quick": 400, "thorough": 2400}
 REQUIRED = {"ei:z<-40": 20, "ei:-40<=z<-3": 50, "ei:-3<=z<0": 50, "ei:z>=0": 20, "ei:switch_pairs": 10,
-            "post:opt_func_gradient": 200, "gradient_checks": 200, "optimiser_iterations": 30, "proposals:bfgs": 15, "proposals:diffev": 6}
+            "post:opt_func_gradient": 200, "gradient_checks": 200, "optimiser_iterations": 30, "proposals:bfgs": 15, "proposals:diffev": 6, "default_optimiser_pairs": 8}
 
 
 def jobs(tier, seed):
     n_jobs = 16 if tier == "quick" else 32
     return [{"name": f"acq-{j}", "seed": seed, "j": j, "n_gps": 30 if tier == "quick" else 150,
-             "n_opt": 3 if tier == "quick" else 12} for j in range(n_jobs)]
+             "n_opt": 3 if tier == "quick" else 12, "n_pairs": 1 if tier == "quick" else 4} for j in range(n_jobs)]
 
 
 def ei_reference(mu, sig, ymax):
@@ -320,6 +320,65 @@ def run_job(job, rec):
                       "the data errors held by the fitted model are not those supplied", octx)
             rec.count("optimiser_iterations")
             rec.case(digest("opt", x0, y0, opt_name, acq_cls.__name__, it))
+
+    # ---------------------------------------------------------------- two optimisers built from the defaults, used in alternation
+    for s in range(job.get("n_pairs", 2)):
+        d = 1
+        opts, datas, objs = [], [], []
+        pctx = {"pair_of_default_optimisers": s}
+        rec.context = pctx
+        failed = False
+        for k in range(2):
+            lo = rng.normal(size=d) * 10.0 ** rng.uniform(-1, 1)
+            wid = 10.0 ** rng.uniform(-0.5, 1, size=d)
+            peak = lo + wid * rng.uniform(0.2, 0.8, size=d)
+            ysc = 10.0 ** rng.uniform(-1, 2)
+            off = float(rng.normal() * ysc * 3)
+
+            def objective(p, peak=peak, wid=wid, ysc=ysc, off=off):
+                p = np.atleast_1d(np.asarray(p, float))
+                return float(off + ysc * np.exp(-0.5 * (((p - peak) / (0.3 * wid)) ** 2).sum()))
+
+            x0 = lo + wid * rng.uniform(0.02, 0.98, size=(4, d))
+            y0 = [objective(p) for p in x0]
+            np.random.seed(int(rng.integers(2**31)))
+            o = guarded(GpOptimiser, x0.copy(), np.array(y0), bounds=[(float(a), float(a + w)) for a, w in zip(lo, wid)])
+            if isinstance(o, Raised):
+                rec.violation("raised", f"GpOptimiser with default arguments raised {o!r}", pctx)
+                failed = True
+                break
+            opts.append(o)
+            datas.append(list(y0))
+            objs.append(objective)
+        if failed:
+            continue
+        rec.count("default_optimiser_pairs")
+        rec.case(digest("pair", s, datas), nontrivial=True)
+
+        def own_state(when):
+            for k, (o, ys) in enumerate(zip(opts, datas)):
+                ok = o.acquisition.gp is o.gp and float(o.acquisition.mu_max) == max(ys) and np.array_equal(np.asarray(o.gp.y, float), np.array(ys))
+                rec.check(ok, "incumbent-not-updated",
+                          lambda: f"optimiser {k} of a pair built with default arguments ({when}): its acquisition function refers to "
+                                  f"{'its own' if o.acquisition.gp is o.gp else 'ANOTHER'} regressor, incumbent {o.acquisition.mu_max!r}, max of its own data {max(ys)!r}", pctx)
+            rec.check(opts[0].acquisition is not opts[1].acquisition, "acquisition-shared-between-optimisers",
+                      "two optimisers built with default arguments share one acquisition object", pctx)
+
+        own_state("after construction")
+        for k in [int(v) for v in rng.integers(0, 2, size=4)]:
+            np.random.seed(int(rng.integers(2**31)))
+            prop = guarded(opts[k].propose_evaluation)
+            if isinstance(prop, Raised):
+                rec.violation("raised", f"propose_evaluation raised {prop!r}", pctx)
+                break
+            b = opts[k].bounds if hasattr(opts[k], "bounds") else None
+            ny = objs[k](prop)
+            r = guarded(opts[k].add_evaluation, prop, ny)
+            if isinstance(r, Raised):
+                rec.violation("raised", f"add_evaluation raised {r!r}", pctx)
+                break
+            datas[k].append(ny)
+            own_state(f"after propose/add on optimiser {k}")
 
     for (cn, m), a in atts.items():
         rec.count("post:" + m, a.calls)
